@@ -3,6 +3,7 @@ from __future__ import annotations
 from core import Case, Failure
 
 PROP = "C18"
+CONSTS = ['mem']          # constant tables of the models this property depends on
 RULE = ("random histories of reads/writes of widths 8/16/32 (RISC-V cfg) or 16 (TOY cfg) over a colliding "
         "address universe: both ends of the valid range, +-2^32 aliases, negative and unaligned addresses; "
         "non-trivial = at least one accepted write followed by a read overlapping it; distinct = distinct history")
